@@ -42,6 +42,7 @@ try:
     from . import index_rules as IR
 except ImportError:  # pragma: no cover
     IR = None
+from . import detach_rules as DT
 try:
     from . import bcast_rules as BR
 except ImportError:  # pragma: no cover
@@ -95,12 +96,13 @@ RULES = {
     "R39": _get(IR, "r39_roll_adjoint_of_unroll"),
     "R40": _get(BR, "r40_broadcast"),
     "R41": _get(IR, "r41_multi_index"),
+    "R45": _get(DT, "r45_no_detached_dependence"),
 }
 
 # property -> rules (DESIGN.md section 4)
 PROPERTY_RULES = {
-    "C01": ["R9", "R8", "R5", "R27", "R6", "R24", "R11", "R25", "R23", "R26"],
-    "C02": ["R12", "R13", "R15", "R9", "R33", "R29", "R31", "R30", "R32", "R39"],
+    "C01": ["R9", "R8", "R5", "R27", "R6", "R24", "R11", "R25", "R23", "R26", "R45"],
+    "C02": ["R12", "R13", "R15", "R9", "R33", "R29", "R31", "R30", "R32", "R39", "R11", "R45"],
     "C03": ["R11", "R21"],
     "C04": ["R40"],
     "C05": ["R36", "R38"],
